@@ -40,6 +40,37 @@ def workdir():
     return d
 
 
+CPU_CUT = 45
+
+
+class CpuBudget(BaseException):
+    """Raised inside a decoder by the virtual-time interval timer."""
+
+
+def _on_cpu_alarm(signum, frame):
+    raise CpuBudget()
+
+
+def _arm_cpu_timer():
+    import signal
+
+    try:
+        old = signal.signal(signal.SIGVTALRM, _on_cpu_alarm)
+    except ValueError:                    # not the main thread: the shard watchdog is all there is
+        return None
+    signal.setitimer(signal.ITIMER_VIRTUAL, CPU_CUT)
+    return old
+
+
+def _disarm_cpu_timer(old):
+    import signal
+
+    if old is None:
+        return
+    signal.setitimer(signal.ITIMER_VIRTUAL, 0)
+    signal.signal(signal.SIGVTALRM, old)
+
+
 def decode(fmt, data, args=(), keep=False, in_ext=None):
     """Run `<fmt>to...` start(argv) on a file holding `data`.
     -> dict(status: ok|exc|exit, exc, code, out (bytes|None), out_exists, cpu, stderr)"""
@@ -64,8 +95,15 @@ def decode(fmt, data, args=(), keep=False, in_ext=None):
     sys.stdout = _Sink()
     sys.stderr = _Sink()
     t0 = time.process_time()
+    timer = _arm_cpu_timer()
     try:
         mod.start(argv)
+    except CpuBudget:
+        # the decoder used CPU_CUT seconds of processor time (not wall-clock time) on one file: it is abandoned, and the
+        # checks report the case (cpu > their limit) instead of losing the whole shard to the watchdog
+        res["status"] = "exc"
+        res["exc"] = "CpuBudget"
+        res["msg"] = "cut off after %d s of CPU time" % CPU_CUT
     except SystemExit as exc:
         code = exc.code
         if code is None or code == 0:
@@ -83,6 +121,7 @@ def decode(fmt, data, args=(), keep=False, in_ext=None):
         res["exc"] = type(exc).__name__
         res["msg"] = str(exc)[:120]
     finally:
+        _disarm_cpu_timer(timer)
         res["stderr"] = sys.stderr.getvalue()[-300:]
         sys.stdout, sys.stderr = saved
     res["cpu"] = time.process_time() - t0
